@@ -17,6 +17,7 @@ import (
 	"sort"
 	"strings"
 	"sync"
+	"sync/atomic"
 	"syscall"
 	"time"
 
@@ -124,6 +125,47 @@ func e2Session(args []string) int {
 			return 4
 		}
 		ctl.mark("PHASE open-done")
+		// sync mode: the last session of every second run is driven by three CONCURRENT clients that own disjoint keys
+		// (per key the calls stay ordered, so the per-key oracle is unchanged); everything else about the session is the same
+		if *mode == "sync" && !*big && !*bigSync && s == sessions-1 && *seed%2 == 0 {
+			ctl.mark("PHASE concurrent-clients")
+			var wg sync.WaitGroup
+			var next int64 = int64(opIdx)
+			for cl := 0; cl < 3; cl++ {
+				wg.Add(1)
+				go func(cl int, cs int64) {
+					defer wg.Done()
+					cr := rand.New(rand.NewSource(cs))
+					var mine []string
+					for i, k := range keys {
+						if i%3 == cl {
+							mine = append(mine, k)
+						}
+					}
+					for i := 0; i < nops/3 && len(mine) > 0; i++ {
+						k := mine[cr.Intn(len(mine))]
+						id := int(atomic.AddInt64(&next, 1) - 1)
+						var e error
+						if cr.Intn(100) < 25 {
+							ctl.mark("INV %d del %s ", id, hex.EncodeToString([]byte(k)))
+							e = db.DeleteBytes([]byte(k))
+						} else {
+							v := []byte(fmt.Sprintf("c%d.%d-%s", cl, i, strings.Repeat("z", gen.Pick(cr, 1, 5, 20, 60))))
+							ctl.mark("INV %d put %s %s", id, hex.EncodeToString([]byte(k)), hex.EncodeToString(v))
+							e = db.PutBytes([]byte(k), v)
+						}
+						if e != nil {
+							ctl.mark("ACK %d err %s", id, strings.ReplaceAll(e.Error(), "\n", " "))
+						} else {
+							ctl.mark("ACK %d ok", id)
+						}
+					}
+				}(cl, r.Int63())
+			}
+			wg.Wait()
+			opIdx = int(next)
+			nops = 0
+		}
 		for i := 0; i < nops; i++ {
 			k := keys[r.Intn(len(keys))]
 			kind := "put"
@@ -176,6 +218,9 @@ func e2Session(args []string) int {
 				}
 			case x < 22:
 				kind = "del"
+				if r.Intn(10) == 0 {
+					k = "" // deleting the empty key is accepted (and logged): it must stay harmless through recovery
+				}
 			case *mode == "c17" && x < 40:
 				// calls that must be rejected and must leave no trace
 				kind = "badput"
@@ -261,6 +306,7 @@ func e2Recover(args []string) int {
 	wbuf := fs.Uint64("wbuf", 4096, "")
 	hashVals := fs.Bool("hashvals", false, "report sha prefixes instead of values")
 	cont := fs.Bool("cont", false, "after the read-all: a fixed continuation (put, delete, close, open) and a second read-all")
+	kill2 := fs.Bool("kill2", false, "with -cont: no Close after the continuation, the process ends like a second kill (the caller recovers the directory again)")
 	_ = fs.Parse(args)
 	var out e2RecoverOut
 	db, err := simpledb.NewSimpleDB(*dir, simpledb.DisableCompactions(), simpledb.ReadBufferSizeBytes(*rbuf), simpledb.WriteBufferSizeBytes(*wbuf))
@@ -306,6 +352,13 @@ func e2Recover(args []string) int {
 		if err := db.DeleteBytes(k1); err != nil && out.ContErr == "" {
 			out.ContErr = "delete: " + err.Error()
 		}
+	}
+	if *cont && *kill2 {
+		// second kill: what the first recovery showed and what was acknowledged since must survive without a Close
+		b, _ := json.Marshal(out)
+		fmt.Println(string(b))
+		_ = os.Stdout.Sync()
+		os.Exit(0)
 	}
 	if err := db.Close(); err != nil {
 		out.CloseErr = err.Error()
@@ -397,7 +450,7 @@ type e2State struct {
 	faulted  bool // a WAL write failed in this session: later errors are expected until the next Open
 	ops      []e2Op
 	model    map[string]*string // state after all ACKed, successful operations (hex key -> hex value)
-	inflight int                // index of the op with INV but no ACK, -1 if none
+	inflight []int              // indexes of the ops with INV but no ACK yet (several only in sessions with concurrent clients, which own disjoint keys)
 	open     int                // >0 between open-begin and open-done
 	closing  int
 	flushB   int
@@ -410,10 +463,12 @@ type e2State struct {
 	// async bookkeeping: number of ops acknowledged when the most recent WAL file was created
 	ackedCount      int
 	ackedAtWal      int
+	concurrent      int // sessions driven by concurrent clients
+	maxInflight     int
 	opErrUnexpected []string
 }
 
-func newE2State() *e2State { return &e2State{model: map[string]*string{}, inflight: -1} }
+func newE2State() *e2State { return &e2State{model: map[string]*string{}} }
 
 func (s *e2State) marker(m string) {
 	f := strings.SplitN(m, " ", 5)
@@ -428,12 +483,27 @@ func (s *e2State) marker(m string) {
 			op.V = f[4]
 		}
 		s.ops = append(s.ops, op)
-		s.inflight = len(s.ops) - 1
+		s.inflight = append(s.inflight, len(s.ops)-1)
+		if len(s.inflight) > s.maxInflight {
+			s.maxInflight = len(s.inflight)
+		}
 	case "ACK":
-		if s.inflight < 0 {
+		if len(s.inflight) == 0 || len(f) < 2 {
 			return
 		}
-		op := &s.ops[s.inflight]
+		var ackI int
+		fmt.Sscan(f[1], &ackI)
+		pos := -1
+		for i, oi := range s.inflight {
+			if s.ops[oi].I == ackI {
+				pos = i
+			}
+		}
+		if pos < 0 {
+			return
+		}
+		op := &s.ops[s.inflight[pos]]
+		s.inflight = append(s.inflight[:pos:pos], s.inflight[pos+1:]...)
 		op.Done = true
 		op.Err = len(f) >= 3 && f[2] == "err"
 		if op.Err && op.Kind == "faultput" {
@@ -445,7 +515,6 @@ func (s *e2State) marker(m string) {
 		if !op.Err {
 			e2Apply(s.model, *op)
 		}
-		s.inflight = -1
 		s.ackedCount++
 	case "PHASE":
 		switch f[1] {
@@ -454,6 +523,8 @@ func (s *e2State) marker(m string) {
 		case "open-done":
 			s.open--
 			s.faulted = false
+		case "concurrent-clients":
+			s.concurrent++
 		case "close-failed-after-fault":
 			s.closing--
 		case "close-begin":
@@ -602,8 +673,12 @@ func e2Judge(job e2Job, keys []string, rbuf, wbuf uint64, hashVals bool, c *fw.C
 	if hashVals {
 		args = append(args, "-hashvals")
 	}
+	kill2 := job.cont && job.seq%2 == 1 // every second continuation ends in a second kill instead of a Close
 	if job.cont {
 		args = append(args, "-cont")
+	}
+	if kill2 {
+		args = append(args, "-kill2")
 	}
 	res := fw.RunSub("", 120, nil, filepath.Dir(job.dir), args...)
 	where := fmt.Sprintf("image #%d%s, phase %s, last completed call %s, op in flight: %s\nfiles: %s", job.seq, job.variant, job.phase, job.after, job.inflight, strings.Join(job.listing, " "))
@@ -660,6 +735,26 @@ func e2Judge(job e2Job, keys []string, rbuf, wbuf uint64, hashVals bool, c *fw.C
 		}
 		return &e2Verdict{"crash/wrong-content/" + kind + "/" + job.phase + tail, fmt.Sprintf("key %s reads %s after recovery, acknowledged state says %s on %s", showKey(k), showVal(got), showVal(job.expectA[k]), where)}
 	}
+	contKind := ""
+	if kill2 && out.ContErr == "" {
+		// recover the directory once more (the first recovering process has ended without Close)
+		contKind = "-and-second-kill"
+		c.Obs("continuations_ended_by_a_second_kill", 1)
+		res2 := fw.RunSub("", 120, nil, filepath.Dir(job.dir), "e2recover", "-dir", job.dir, "-keys", strings.Join(keys, ","), "-rbuf", fmt.Sprint(rbuf), "-wbuf", fmt.Sprint(wbuf))
+		var out2 e2RecoverOut
+		switch {
+		case res2.TimedOut:
+			return &e2Verdict{"INCONCLUSIVE", "second recovery watchdog expired on " + where}
+		case json.Unmarshal(bytes.TrimSpace(res2.Stdout), &out2) != nil:
+			return &e2Verdict{"crash/recovery-process-died/after-second-kill/" + fw.PanicSite(res2.Stderr) + tail, fmt.Sprintf("the process recovering after the second kill ended abnormally (exit %d) on %s\n%s", res2.Exit, where, cutS(res2.Stderr, 800))}
+		case out2.OpenErr != "":
+			out.ContErr = "reopen after the second kill: " + out2.OpenErr
+		case out2.GetErr != "":
+			out.ContErr = out2.GetErr
+		default:
+			out.Reads2 = out2.Reads
+		}
+	}
 	if job.cont {
 		// the recovered database must keep behaving like the map: fixed continuation (put keys[0], delete keys[1]), restart, read-all
 		if out.ContErr != "" {
@@ -681,7 +776,7 @@ func e2Judge(job e2Job, keys []string, rbuf, wbuf uint64, hashVals bool, c *fw.C
 			if sameVal(got, wantA) || (job.expectAF != nil && sameVal(got, wantAF)) {
 				continue
 			}
-			return &e2Verdict{"crash/wrong-content-after-continuation/" + job.phase + tail, fmt.Sprintf("after recovery + put(%s) + delete(%s) + restart key %s reads %s, expected %s on %s", showKey(keys[0]), showKey(keys[1]), showKey(k), showVal(got), showVal(wantA), where)}
+			return &e2Verdict{"crash/wrong-content-after-continuation" + contKind + "/" + job.phase + tail, fmt.Sprintf("after recovery + put(%s) + delete(%s) + restart key %s reads %s, expected %s on %s", showKey(keys[0]), showKey(keys[1]), showKey(k), showVal(got), showVal(wantA), where)}
 		}
 	}
 	return nil
@@ -689,6 +784,7 @@ func e2Judge(job e2Job, keys []string, rbuf, wbuf uint64, hashVals bool, c *fw.C
 
 type e2Summary struct {
 	contJudged                          int
+	concurrent, maxInflight             int
 	mutations, images, distinct, judged int
 	byPhase                             map[string]int
 	verdicts                            map[string]*e2Verdict
@@ -761,6 +857,7 @@ func e2RunSession(c *fw.Case, cfg e2Config) *e2Summary {
 		return nil
 	})
 	sum.ops = len(st.ops)
+	sum.concurrent, sum.maxInflight = st.concurrent, st.maxInflight
 	sum.opsList = append([]e2Op{}, st.ops...)
 	if len(rp.Problems) > 0 {
 		sum.problems = rp.Problems
@@ -824,11 +921,14 @@ func e2RunSession(c *fw.Case, cfg e2Config) *e2Summary {
 		expA := st.model
 		var expAF map[string]*string
 		infl := "none"
-		if st.inflight >= 0 {
-			op := st.ops[st.inflight]
-			infl = fmt.Sprintf("#%d %s(%s)", op.I, op.Kind, showKey(op.K))
+		if len(st.inflight) > 0 {
+			infl = ""
 			expAF = copyModel(st.model)
-			e2Apply(expAF, op)
+			for _, oi := range st.inflight {
+				op := st.ops[oi]
+				infl += fmt.Sprintf("#%d %s(%s) ", op.I, op.Kind, showKey(op.K))
+				e2Apply(expAF, op) // concurrent clients own disjoint keys: per key at most one call is in flight
+			}
 		}
 		h := sha256.New()
 		fmt.Fprintf(h, "%s|", rp.Hash())
